@@ -138,18 +138,19 @@ theorem insert_disk (db : Db) (w : Hash × CNode) : (db.insert w).disk = db.disk
   cases lookupH db.mem w.1 <;> rfl
 
 section sound
-variable {hashOf : CNode → Hash} (hinj : ∀ a b, hashOf a = hashOf b → a = b)
-include hinj
+variable {hashOf : CNode → Hash} (hH : HashOk hashOf)
+include hH
 
-theorem insert_spec {db : Db} (hS : Sound hashOf db.node) {w : Hash × CNode} (hw : w.1 = hashOf w.2) :
+theorem insert_spec {db : Db} (hS : Sound hashOf db.node) {w : Hash × CNode}
+    (hw : w.1 = hashOf w.2 ∧ NormM false w.2) :
     Store.le db.node (db.insert w).node ∧ Sound hashOf (db.insert w).node ∧ (db.insert w).node w.1 = some w.2 := by
   refine ⟨fun x c hx => ?_, fun x c hx => ?_, ?_⟩
   · rw [insert_node]
     by_cases hc : x = w.1 ∧ lookupH db.mem w.1 = none
     · rw [if_pos hc]
-      have h1 := hS _ _ hx
-      rw [hc.1, hw] at h1
-      rw [hinj _ _ h1]
+      have h1 := (hS _ _ hx).1
+      rw [hc.1, hw.1] at h1
+      rw [hH.inj _ _ (Or.inr hw.2) (Or.inr (hS _ _ hx).2) h1]
     · rw [if_neg hc]; exact hx
   · rw [insert_node] at hx
     by_cases hc : x = w.1 ∧ lookupH db.mem w.1 = none
@@ -165,12 +166,12 @@ theorem insert_spec {db : Db} (hS : Sound hashOf db.node) {w : Hash × CNode} (h
       | none => exact absurd hm hc
       | some m =>
         have hn : db.node w.1 = some m.blob := by simp [Db.node, hm]
-        have h1 := hS _ _ hn
-        rw [hw] at h1
-        rw [hn, hinj _ _ h1]
+        have h1 := (hS _ _ hn).1
+        rw [hw.1] at h1
+        rw [hn, hH.inj _ _ (Or.inr hw.2) (Or.inr (hS _ _ hn).2) h1]
 
 theorem insertAll_spec : ∀ (ws : List (Hash × CNode)) (db : Db), Sound hashOf db.node →
-    (∀ w, w ∈ ws → w.1 = hashOf w.2) →
+    (∀ w, w ∈ ws → w.1 = hashOf w.2 ∧ NormM false w.2) →
     Store.le db.node (db.insertAll ws).node ∧ Sound hashOf (db.insertAll ws).node ∧
     (∀ w, w ∈ ws → (db.insertAll ws).node w.1 = some w.2) ∧ (db.insertAll ws).disk = db.disk := by
   intro ws
@@ -178,7 +179,7 @@ theorem insertAll_spec : ∀ (ws : List (Hash × CNode)) (db : Db), Sound hashOf
   | nil => intro db hS _; exact ⟨Store.le_refl _, hS, fun w hw => (by cases hw), rfl⟩
   | cons w ws ih =>
     intro db hS hw
-    obtain ⟨a1, a2, a3⟩ := insert_spec hinj hS (hw w List.mem_cons_self)
+    obtain ⟨a1, a2, a3⟩ := insert_spec hH hS (hw w List.mem_cons_self)
     obtain ⟨g1, g2, g3, g4⟩ := ih (db.insert w) a2 (fun x hx => hw x (List.mem_cons_of_mem _ hx))
     refine ⟨Store.le_trans a1 g1, g2, fun x hx => ?_, by rw [show db.insertAll (w :: ws) = (db.insert w).insertAll ws from rfl, g4, insert_disk]⟩
     rcases List.mem_cons.mp hx with hx | hx
@@ -290,7 +291,7 @@ structure DbOk (hashOf : CNode → Hash) (db : Db) : Prop where
   refs : ∀ h m, lookupH db.mem h = some m → ∀ x, x ∈ directRefs m.blob → x ∈ m.children ∨ onDisk db x
   kids : ∀ h m, lookupH db.mem h = some m → ∀ x, x ∈ m.children → inMem db x ∨ onDisk db x
   disk : ∀ h c, lookupH db.disk h = some c → ∀ x, x ∈ directRefs c → onDisk db x
-  dsound : ∀ h c, lookupH db.disk h = some c → h = hashOf c
+  dsound : ∀ h c, lookupH db.disk h = some c → h = hashOf c ∧ NormM false c
 
 theorem dbOk_empty (hashOf : CNode → Hash) : DbOk hashOf {} :=
   ⟨fun h m hm => (by cases hm), fun h m hm => (by cases hm), fun h c hc => (by cases hc), fun h c hc => (by cases hc)⟩
@@ -568,7 +569,7 @@ theorem fold_ok {hashOf : CNode → Hash} {db1 : Db} (p : Hash) (refs : List Has
       x ∈ m.children ∨ onDisk db1 x ∨ (h = p ∧ x ∈ refs ∧ inMem db1 x))
     (hkids : ∀ h m, lookupH db1.mem h = some m → ∀ x, x ∈ m.children → inMem db1 x ∨ onDisk db1 x)
     (hdisk : ∀ h c, lookupH db1.disk h = some c → ∀ x, x ∈ directRefs c → onDisk db1 x)
-    (hds : ∀ h c, lookupH db1.disk h = some c → h = hashOf c) :
+    (hds : ∀ h c, lookupH db1.disk h = some c → h = hashOf c ∧ NormM false c) :
     DbOk hashOf (refs.foldl (fun d c => d.reference c p) db1) := by
   obtain ⟨k1, a1, b1⟩ := foldl_reference_mem p refs db1
   have hd : (refs.foldl (fun d c => d.reference c p) db1).disk = db1.disk := (foldl_reference refs p db1).2
@@ -688,16 +689,16 @@ theorem presentR_append : ∀ (a b : List (Hash × CNode)) (P : Hash → Prop), 
       · exact Or.inl (Or.inr hx)
       · exact Or.inr hx
 
-theorem insertAll_ok {hashOf : CNode → Hash} (hinj : ∀ a b, hashOf a = hashOf b → a = b) :
+theorem insertAll_ok {hashOf : CNode → Hash} (hH : HashOk hashOf) :
     ∀ (ws : List (Hash × CNode)) (db : Db), DbOk hashOf db → Sound hashOf db.node →
-    (∀ w, w ∈ ws → w.1 = hashOf w.2) → PresentR (fun x => db.node x ≠ none) ws →
+    (∀ w, w ∈ ws → w.1 = hashOf w.2 ∧ NormM false w.2) → PresentR (fun x => db.node x ≠ none) ws →
     DbOk hashOf (db.insertAll ws) := by
   intro ws
   induction ws with
   | nil => intro db hOk _ _ _; exact hOk
   | cons w ws ih =>
     intro db hOk hS hw ⟨h1, h2⟩
-    obtain ⟨a1, a2, a3⟩ := insert_spec hinj hS (hw w List.mem_cons_self)
+    obtain ⟨a1, a2, a3⟩ := insert_spec hH hS (hw w List.mem_cons_self)
     refine ih (db.insert w) (insert_ok hOk w h1) a2 (fun x hx => hw x (List.mem_cons_of_mem _ hx))
       (presentR_mono ws _ _ (fun x hx => ?_) h2)
     rcases hx with hx | hx
